@@ -26,15 +26,15 @@ Proof.
   - destruct (Nat.eqb k a); [reflexivity | exact IH].
 Qed.
 
-Lemma cfind_some : forall a c en, cfind a c = Some en -> In en c /\ e_key en = a.
+Lemma cfind_some : forall a c en, cfind a c = Some en -> In en c /\ ie_key en = a.
 Proof.
   intros a c en. induction c as [|e t IH]; cbn; [discriminate|].
-  destruct (Nat.eqb (e_key e) a) eqn:E.
+  destruct (Nat.eqb (ie_key e) a) eqn:E.
   - intros H. inversion H; subst. split; [left; reflexivity | apply Nat.eqb_eq; exact E].
   - intros H. destruct (IH H) as [Hin K]. split; [right; exact Hin | exact K].
 Qed.
 
-Lemma pinned_of_entry : forall c en, In en c -> e_pin en = true -> pinned (e_key en) c = true.
+Lemma pinned_of_entry : forall c en, In en c -> ie_pin en = true -> pinned (ie_key en) c = true.
 Proof.
   intros c en Hin P. unfold pinned. apply existsb_exists. exists en. split; [exact Hin|].
   rewrite P, Nat.eqb_refl. reflexivity.
@@ -45,7 +45,7 @@ Lemma held_app : forall a cs x, held a cs = true -> held a (cs ++ [x]) = true.
 Proof. intros a cs x H. unfold held in *. rewrite existsb_app, H. reflexivity. Qed.
 
 Lemma held_set_nth_grow : forall a b cs c l,
-  nth_error cs c = Some (Some l) -> held a cs = true -> held a (set_nth c (Some (l ++ [b])) cs) = true.
+  nth_error cs c = Some (Some l) -> held a cs = true -> held a (iset_nth c (Some (l ++ [b])) cs) = true.
 Proof.
   intros a b cs. induction cs as [|y t IH]; intros c l Hn H.
   - destruct c; discriminate.
@@ -59,7 +59,7 @@ Proof.
 Qed.
 
 Lemma held_set_nth_new : forall a cs c l,
-  nth_error cs c = Some (Some l) -> held a (set_nth c (Some (l ++ [a])) cs) = true.
+  nth_error cs c = Some (Some l) -> held a (iset_nth c (Some (l ++ [a])) cs) = true.
 Proof.
   intros a cs. induction cs as [|y t IH]; intros c l Hn.
   - destruct c; discriminate.
@@ -72,12 +72,12 @@ Qed.
 (* every entry is PROTECTED (it pins its key object, or - unpinned discipline - a live _gates list holds it) and its
    value is the conversion of the present contents of the object at its key *)
 Definition protected (pin : bool) (s : ist) (en : ientry) : Prop :=
-  e_pin en = true \/ (pin = false /\ held (e_key en) (circs s) = true).
+  ie_pin en = true \/ (pin = false /\ held (ie_key en) (circs s) = true).
 Definition entry_ok (conv : Z -> Z) (pin : bool) (s : ist) (en : ientry) : Prop :=
-  protected pin s en /\ exists v, hfind (e_key en) (heap s) = Some v /\ e_val en = conv v.
+  protected pin s en /\ exists v, hfind (ie_key en) (heap s) = Some v /\ ie_val en = conv v.
 Definition inv (conv : Z -> Z) (pin : bool) (s : ist) : Prop := forall en, In en (cache s) -> entry_ok conv pin s en.
 
-Lemma protected_rooted : forall pin s en, In en (cache s) -> protected pin s en -> rooted s (e_key en) = true.
+Lemma protected_rooted : forall pin s en, In en (cache s) -> protected pin s en -> rooted s (ie_key en) = true.
 Proof.
   intros pin s en Hin [P|[_ H]]; unfold rooted.
   - rewrite (pinned_of_entry _ _ Hin P). apply orb_true_r.
@@ -107,7 +107,7 @@ Proof.
     destruct (hfind a (heap s)) as [v|] eqn:Hf; [|discriminate].
     destruct (nth_error (circs s) c) as [[l|]|] eqn:Hn; try discriminate.
     assert (Hgrow : forall k, held k (circs s) = true ->
-                    held k (if acc then set_nth c (Some (l ++ [a])) (circs s) else circs s) = true).
+                    held k (if acc then iset_nth c (Some (l ++ [a])) (circs s) else circs s) = true).
     { intros k Hk. destruct acc; [apply held_set_nth_grow; assumption | exact Hk]. }
     destruct (cfind a (cache s)) as [en|] eqn:Cf.
     + inversion St; subst; clear St. split.
@@ -122,7 +122,7 @@ Proof.
         -- destruct P as [P|[Q P]]; [left; exact P | right; split; [exact Q | cbn [circs]; apply Hgrow; exact P]].
         -- exists w. split; [exact Hw | exact Ev].
       * destruct Hin as [E|[]]. subst en'. split.
-        -- unfold protected. cbn [e_pin e_key circs]. destruct pin; [left; reflexivity|].
+        -- unfold protected. cbn [ie_pin ie_key circs]. destruct pin; [left; reflexivity|].
            right. split; [reflexivity|]. cbn in G. rewrite G. apply held_set_nth_new. exact Hn.
         -- exists v. split; [exact Hf | reflexivity].
   - (* ICopy *)
@@ -136,7 +136,7 @@ Proof.
     destruct (nth_error (circs s) c) as [[l|]|] eqn:Hn; try discriminate.
     inversion St; subst; clear St. split; [|exact Logic.I].
     intros en Hin. cbn [cache] in Hin.
-    destruct (any_live (set_nth c None (circs s))); [|destruct Hin].
+    destruct (any_live (iset_nth c None (circs s))); [|destruct Hin].
     destruct (I en Hin) as [P [w [Hw Ev]]]. split.
     + destruct P as [P|[Q _]]; [left; exact P | discriminate].
     + exists w. split; [exact Hw | exact Ev].
